@@ -116,6 +116,8 @@ class Result:
         self.steps = 0
         self.step_profiles = []  # (profile_in, prev_round_number, profile_out)
         self.stdout = ""
+        self.obj = None  # the election object as seen by _run_step (also when __init__ raised)
+        self.partial = False
 
     @property
     def ok(self):
@@ -135,6 +137,8 @@ def run(name, profile, cfg, rng=None, record_steps=False, bound=None):
     counter = [0]
 
     def wrapped(self, prof, prev_state, store_states=False):
+        if res.obj is None:
+            res.obj = self
         if store_states:
             counter[0] += 1
             if counter[0] > limit:
@@ -168,6 +172,13 @@ def run(name, profile, cfg, rng=None, record_steps=False, bound=None):
     res.stdout = getattr(layer, "stdout", "")
     if res.election is not None:
         res.states = [ser_state(s) for s in res.election.election_states]
+    elif res.obj is not None and hasattr(res.obj, "election_states"):
+        # the constructor raised: the rounds recorded before the exception are still observable
+        try:
+            res.states = [ser_state(s) for s in res.obj.election_states]
+            res.partial = True
+        except Exception:
+            res.states = None
     return res
 
 
